@@ -256,6 +256,9 @@ def run(ctx):
     # 1. constructor census
     cons = PC.rng_constructors(P)
     ent = [c for c in cons if c[3] == "from_entropy"]
+    # (a caller into which `get_crypto_rng` was spliced - a call edge the pinned tree does not have - shows the very same
+    # constructor call: it is get_crypto_rng's, not a second one)
+    ent = [c for c in ent if c[0].key == "helpers::get_crypto_rng" or "helpers::get_crypto_rng" not in (c[0].j.get("inlined") or [])]
     seeded = [c for c in cons if c[3] != "from_entropy"]
     ctx.ob("E7.rng", "from_entropy", len(ent) == 1 and ent[0][0].key == "helpers::get_crypto_rng", "entropy-seeded constructor call sites: %s" % [(c[0].key, c[2]) for c in ent], where=where(ent[0][0], ent[0][1]) if ent else None)
     ctx.ob("E7.rng", "seeded-constructors", not seeded, "seeded / cached / thread-local generator constructors: %s" % [(c[0].key, c[2]) for c in seeded], where=where(seeded[0][0], seeded[0][1]) if seeded else None)
